@@ -88,6 +88,8 @@ def interval(e, env, depth=0):
         n = e["n"]
         if n in env.locals:
             lo, hi = interval(env.locals[n], env, depth + 1)
+            if n in env.nonzero and lo is not None and lo.a == 0 and lo.b == 0:
+                lo = B(0, 1)
             if n in env.upper and (hi is None or (hi.a, hi.b) > (env.upper[n].a, env.upper[n].b)):
                 hi = env.upper[n]
             return lo, hi
@@ -164,10 +166,13 @@ def learn(cond, taken, env):
             lo, hi = interval(r, env)
             if hi is not None:
                 env.upper[l["n"]] = _sub(hi, B(0, 1)) if op == "<" else hi
-        if op == "!=" and astx.int_value(r) == 0:
-            env.nonzero.add(astx.show(l, 60))
-        if op == "!=" and astx.int_value(l) == 0:
-            env.nonzero.add(astx.show(r, 60))
+        for a, b in ((l, r), (r, l)):
+            if op == "!=" and astx.int_value(b) == 0 and a is not None:
+                env.nonzero.add(astx.show(a, 60))
+                if a.get("k") == "ref":
+                    env.nonzero.add(a["n"])
+                    if a["n"] in env.locals:
+                        env.nonzero.add(astx.show(astx.strip_casts(env.locals[a["n"]]), 60))
 
 
 def check(chk, db, prefixes, rule="SHIFT", floor=8):
